@@ -269,6 +269,7 @@ def run(ctx):
     ok = kernel_setup(ctx)
     if ok:
         ctx.build_props()
+        ctx.build_props("Props/C07r.vo")  # the Jacobian constant over the reals (Base/Rstruct.v: MathComp field structure on R)
     else:
         ctx.obligations += 1
     specs = load_corpus("C07") + gen_cases(ctx)
